@@ -41,6 +41,7 @@ struct State {
     int writer_tid = -1;
     int reads_done = 0;
     bool writer_done = false;
+    int writers_left = 1;
     bool freeze_allowed = true;
 };
 State* S;
@@ -354,7 +355,7 @@ void overlap_writer(void*)
     for (int i = 0; i < n; i++) do_modify(0);
     {
         gsim::Oracle o;
-        S->writer_done = true;
+        if (--S->writers_left <= 0) S->writer_done = true;
     }
 }
 void run_overlap()
@@ -362,12 +363,18 @@ void run_overlap()
     Cell::W = gsim::knob("W", 1, 2);
     if (!gsim::prog_loaded()) gsim::prog_reset(0);
     S = new State();
+    // one or two writers: with two, the second one waits for the write mutex while the
+    // first is in the middle of its flips
+    int nw = gsim::knob("writers", 1, 2);
+    S->writers_left = nw;
     int a = gsim::spawn(overlap_reader, (void*)0L);
     int b = gsim::spawn(overlap_reader, (void*)1L);
     int w = gsim::spawn(overlap_writer, nullptr);
+    int w2 = nw > 1 ? gsim::spawn(overlap_writer, nullptr) : -1;
     gsim::join(a);
     gsim::join(b);
     gsim::join(w);
+    if (w2 >= 0) gsim::join(w2);
     final_checks(1);
     delete S;
     S = nullptr;
